@@ -352,6 +352,11 @@ _CACHED_PROJECT_ROOT: Path | None = None
 def get_ignore_parser(project_root: Path | None = None) -> IgnoreDirectiveParser:
     """Get cached ignore parser instance (singleton pattern for performance)."""
     global _CACHED_PARSER, _CACHED_PROJECT_ROOT  # pylint: disable=global-statement
+    if project_root is None and _CACHED_PARSER is not None:
+        # Rules ask for "the" parser without knowing the project root. It is the one the
+        # orchestrator created for the project being linted - not a new one rooted at the
+        # current working directory, whose .thailintignore has nothing to say about that project.
+        return _CACHED_PARSER
     effective_root = project_root or Path.cwd()
     if _CACHED_PARSER is None or _CACHED_PROJECT_ROOT != effective_root:
         _CACHED_PARSER = IgnoreDirectiveParser(effective_root)
